@@ -1,7 +1,8 @@
 """C34 -- importing then exporting a git commit reproduces it byte for byte
 (breezy/git/mapping.py: BzrGitMappingv1.import_commit / export_commit / get_revision_id,
 fix_person_identifier; breezy/git/roundtrip.py is not reached by the v1 mapping
-in lossy mode, the only mode it supports).
+in lossy mode, the only mode it supports — its four functions are modelled, proved
+(parse_generate, extract_inject) and compared on their own, stream `rt`).
 
 Model: lean/BreezyVerif/Model/C34.lean; theorems: Props/C34.lean.  The model and
 every theorem are parametric in a CODEC ENVIRONMENT (`Env`): what Python's codec
@@ -37,6 +38,12 @@ Every run:
   `fix_person_identifier` is compared exhaustively on all strings of length
   <= 5 over `<`, `>`, space, comma, `a`; on the same strings the classifier regex of the
   oracle is compared with the model's `Canon` condition (fixed point, not cut by the comma hack).
+* roundtrip.py (Model/C34RT.lean): random CommitSupplements (ids, parent tuples, multi-line / empty
+  property values, verifier; a quarter with dirty fields: whitespace in ids, `:` / newline in
+  property names ...) and messages (some containing the `\n--BZR--\n` marker): generate, parse (also of
+  perturbed texts: accept/reject + result), inject, extract are compared with the model; oracle: for
+  supplements satisfying the theorem's hypotheses (re-stated in Python) and messages without an early
+  marker, extract(inject(m, s)) == (m, s) on the real code.
 * Oracle (model independent) -- for every commit `import_commit` accepts (strict):
   the export must succeed, `as_raw_string()` and the SHA-1 must be identical
   to the original, and `get_revision_id(commit)` = revision id of the imported
@@ -75,6 +82,10 @@ concrete commit whose re-export differs, T2 = model/implementation mismatch:
   N6 message decoded with errors="replace" under a declared codec (needs invalid bytes in it) ... oracle (49) + T2
   N8 the proposed fix applied but checking only the message (needs a BOM in an identity) ........ oracle + T2 (16)
   harmless N4: export lower-cases the codec name before encoding -> clean (0 mismatches)
+  roundtrip.py: RT1 parse: `value[1:].rstrip(b"\n")` -> `value.strip()` (needs a property line with leading /
+       trailing blanks) -> oracle (law) + T2;  RT2 inject: `if not rt_data: return message` dropped (needs an empty
+       supplement) -> oracle + T2;  RT3 generate iterates the dict unsorted -> T2 only (law still holds)
+       harmless RT4: extract uses `partition` instead of `split(..., 1)` -> clean
 """
 import itertools
 
@@ -85,6 +96,12 @@ THEOREMS = [
     "get_revision_id_agrees",
     "encoding_noninjective_codec_witness",
     "unknown_encoding_rejected",
+    "fixed_strict_codec_faithful",
+    "exp_imp_id_fixed_strict_partial",
+    "fixed_variant_refuses_witness",
+    "parse_generate",
+    "extract_inject",
+    "roundtrip_metadata_precondition_witness",
     "revid_stable",
     "revid_independent",
     "imp_rejects_unknown_extra",
@@ -985,6 +1002,194 @@ def raw_stream(ctx, m, n):
     flush(ctx, batch)
 
 
+# --------------------------------------------------------------------------
+# roundtrip.py: the --BZR-- metadata block (generate / parse / inject / extract)
+# --------------------------------------------------------------------------
+
+RT_MARKER = b"\n--BZR--\n"
+WS = b" \t\n\x0b\x0c\r"
+
+
+def elhex(b):
+    return b.hex() if b else "."
+
+
+def supp_fields(rid, pids, props, test):
+    """the driver's four-field form of a supplement (props: dict, printed sorted by key)"""
+    return " ".join([
+        "~" if rid is None else elhex(rid),
+        "~" if pids is None else hl([elhex(p) for p in pids]),
+        hl([elhex(k) + ":" + elhex(v) for k, v in sorted(props.items())]),
+        "~" if test is None else elhex(test)])
+
+
+def supp_of(cs):
+    return (cs.revision_id, cs.explicit_parent_ids, dict(cs.properties), cs.verifiers.get(b"testament3-sha1"))
+
+
+def mk_supp(rid, pids, props, test):
+    from breezy.git.roundtrip import CommitSupplement
+    cs = CommitSupplement()
+    cs.revision_id = rid
+    cs.explicit_parent_ids = pids
+    cs.properties = dict(props)
+    if test is not None:
+        cs.verifiers[b"testament3-sha1"] = test
+    return cs
+
+
+def _rt_id(rng, dirty):
+    base = rng.choice([b"rev-1", b"a@b-2009", b"x", b"git-v1:" + b"ab" * 20, b"r:1"])
+    if not dirty:
+        return base
+    return rng.choice([b"", b" " + base, base + b" ", base + b"\n", b"a b", b"\t" + base, base + b"\r", b"a\nb", b" "])
+
+
+def gen_supp(rng):
+    dirty = rng.random() < 0.25
+    d = lambda: dirty and rng.random() < 0.4
+    rid = None if rng.random() < 0.3 else _rt_id(rng, d())
+    r = rng.random()
+    pids = None if r < 0.4 else () if r < 0.5 else tuple(_rt_id(rng, d()) for _ in range(rng.randint(1, 3)))
+    props = {}
+    for _ in range(rng.choice([0, 0, 1, 1, 2, 3])):
+        k = rng.choice([b"branch-nick", b"bugs", b"k", b"author", b"a-b", b"file-modes"])
+        if d():
+            k = rng.choice([b"", b"a:b", b"a\nb", b" k", b"k ", b"property-x", b"revision-id", k + b":"])
+        v = b"\n".join(rng.choice([b"", b"line", b" lead", b"trail ", b"a: b", b"x\r", b"\xc3\xa9", b":"])
+                       for _ in range(rng.choice([1, 1, 1, 2, 3])))
+        props[k] = v
+    test = None if rng.random() < 0.6 else (rng.choice([b" ", b"a b", b"ab\n"]) if d() else rng.choice([b"", b"0123abcd" * 5, b"sha"]))
+    return rid, pids, props, test
+
+
+def rt_wf(rid, pids, props, test):
+    """the hypothesis `WF` of theorem parse_generate, re-stated in Python"""
+    clean = lambda x: x != b"" and not any(bytes([c]) in WS for c in x)
+    return ((rid is None or clean(rid)) and (pids is None or (len(pids) > 0 and all(clean(p) for p in pids)))
+            and all(b":" not in k and b"\n" not in k for k in props)
+            and (test is None or not any(bytes([c]) in WS for c in test)))
+
+
+def gen_rt_message(rng):
+    m = _text(rng, rng.choice(["ascii", "utf8", "high"]), 0, 10, [b"a", b"b", b" ", b"\n", b"-", b"."])
+    r = rng.random()
+    if r < 0.12:
+        i = rng.randint(0, len(m))
+        m = m[:i] + RT_MARKER + m[i:]
+    elif r < 0.2:
+        m = m + rng.choice([b"\n--BZR--", b"\n--BZR", b"\n", b"\n--BZR--\n"])
+    elif r < 0.25:
+        m = rng.choice([b"--BZR--\n", b"\n--BZR--\nrevision-id: x\n", b"\n--BZR--\njunk"]) + m
+    return m
+
+
+def supp_from_fields(sf):
+    """inverse of supp_fields"""
+    un = lambda x: b"" if x == "." else bytes.fromhex(x)
+    a, b, c, e = sf.split(" ")
+    rid = None if a == "~" else un(a)
+    pids = None if b == "~" else tuple(un(x) for x in ([] if b == "-" else b.split(",")))
+    props = {} if c == "-" else {un(kv.split(":")[0]): un(kv.split(":")[1]) for kv in c.split(",")}
+    test = None if e == "~" else un(e)
+    return rid, pids, props, test
+
+
+def rt_replay(ctx, case):
+    from breezy.git import roundtrip
+    rid, pids, props, test = supp_from_fields(case["supp"])
+    msg = case["msg"].encode("latin-1")
+    cs = mk_supp(rid, pids, props, test)
+    sf = case["supp"]
+    text = _rt_call(roundtrip.generate_roundtripping_metadata, cs, "utf-8")
+    inj = _rt_call(roundtrip.inject_bzr_metadata, msg, cs, "utf-8")
+    ex = _rt_call(roundtrip.extract_bzr_metadata, inj) if isinstance(inj, bytes) else "-"
+    lines = ["rtgen " + sf, "rtinj %s %s" % (hx(msg), sf)] + (["rtext " + hx(inj)] if isinstance(inj, bytes) else [])
+    impl = [text if isinstance(text, str) else hx(text), inj if isinstance(inj, str) else hx(inj)]
+    if isinstance(inj, bytes):
+        impl.append(ex if isinstance(ex, str) else hx(ex[0]) + " " + ("~" if ex[1] is None else supp_fields(*supp_of(ex[1]))))
+    model = ctx.model(lines)
+    return dict(supplement=repr((rid, pids, props, test)), message=repr(msg), wf=rt_wf(rid, pids, props, test),
+                generated=repr(text), injected=repr(inj),
+                extracted=repr(ex if isinstance(ex, str) else (ex[0], None if ex[1] is None else supp_of(ex[1]))),
+                impl=impl, model=model, model_agrees=impl == model)
+
+
+def _rt_call(fn, *a):
+    try:
+        return fn(*a)
+    except ValueError:
+        return "E:Value"
+    except Exception as e:
+        return "E:Other:" + type(e).__name__
+
+
+def rt_stream(ctx, n):
+    from breezy.git import roundtrip
+    rng = ctx.rng
+    cases, lines, outs = [], [], []
+
+    def add(case, line, out):
+        cases.append(case)
+        lines.append(line)
+        outs.append(out)
+    for _ in range(n):
+        rid, pids, props, test = gen_supp(rng)
+        msg = gen_rt_message(rng)
+        sf = supp_fields(rid, pids, props, test)
+        case = dict(kind="rt", supp=sf, msg=msg.decode("latin-1"))
+        wf = rt_wf(rid, pids, props, test)
+        ctx.case(case, nontrivial=bool(props) or pids is not None or RT_MARKER in msg)
+        ctx.count("rt:wf" if wf else "rt:not-wf")
+        cs = mk_supp(rid, pids, props, test)
+        text = _rt_call(roundtrip.generate_roundtripping_metadata, cs, "utf-8")
+        add(case, "rtgen " + sf, text if isinstance(text, str) else hx(text))
+        if isinstance(text, str):
+            continue
+        back = _rt_call(roundtrip.parse_roundtripping_metadata, text)
+        add(case, "rtparse " + hx(text), back if isinstance(back, str) else supp_fields(*supp_of(back)))
+        use_none = rng.random() < 0.08
+        inj = _rt_call(roundtrip.inject_bzr_metadata, msg, None if use_none else cs, "utf-8")
+        add(case, "rtinj %s %s" % (hx(msg), "none" if use_none else sf), inj if isinstance(inj, str) else hx(inj))
+        for m2 in ([inj] if isinstance(inj, bytes) else []) + [msg]:
+            ex = _rt_call(roundtrip.extract_bzr_metadata, m2)
+            add(case, "rtext " + hx(m2), ex if isinstance(ex, str) else
+                hx(ex[0]) + " " + ("~" if ex[1] is None else supp_fields(*supp_of(ex[1]))))
+        # a parser-only case: a perturbed metadata text
+        if text and rng.random() < 0.3:
+            t2 = bytearray(text)
+            i = rng.randrange(len(t2))
+            op = rng.random()
+            if op < 0.3:
+                del t2[i]
+            elif op < 0.6:
+                t2[i:i] = rng.choice([b":", b"\n", b" ", b"x", b"property-", b"\r"])
+            else:
+                t2 = t2[:i]
+            t2 = bytes(t2)
+            back2 = _rt_call(roundtrip.parse_roundtripping_metadata, t2)
+            add(case, "rtparse " + hx(t2), back2 if isinstance(back2, str) else supp_fields(*supp_of(back2)))
+            ctx.count("rt:perturbed:" + ("reject" if isinstance(back2, str) else "accept"))
+        # oracle (model independent): the law  extract(inject(m, s)) == (m, s)  under the theorem's hypotheses
+        if wf and not use_none and isinstance(inj, bytes):
+            early = text != b"" and (msg + RT_MARKER + text).find(RT_MARKER) != len(msg)
+            plain_marker = text == b"" and RT_MARKER in msg
+            if early or plain_marker:
+                ctx.count("rt:marker-in-message")
+                continue
+            ex = _rt_call(roundtrip.extract_bzr_metadata, inj)
+            want_supp = None if text == b"" else (rid, pids if pids else None, props, test)
+            got = None if isinstance(ex, str) else (ex[0], None if ex[1] is None else supp_of(ex[1]))
+            if got != (msg, want_supp):
+                ctx.violation(case, "roundtrip.py: extract_bzr_metadata(inject_bzr_metadata(m, s)) = %r, expected %r"
+                              % (ex if isinstance(ex, str) else got, (msg, want_supp)), family=None)
+            ctx.count("rt:law-checked")
+        if len(lines) > 4000:
+            ctx.diff(cases, lines, outs)
+            del cases[:], lines[:], outs[:]
+    ctx.diff(cases, lines, outs)
+
+
 def fix_stream(ctx):
     from breezy.git.mapping import fix_person_identifier
     alph = [b"<", b">", b" ", b",", b"a"]
@@ -1017,6 +1222,7 @@ def run(ctx, n=None):
     fx, label = probe_variant(m)
     ctx.extra["variant"] = dict(strict_import_checks_reencoding=fx, refusal_rendered_as=label)
     fix_stream(ctx)
+    rt_stream(ctx, (n or ctx.pick(6000, 80000)) // 6)
     raw_stream(ctx, m, (n or ctx.pick(6000, 80000)) // 8)
     batch = []
     for i in range(n or ctx.pick(6000, 80000)):
@@ -1043,6 +1249,8 @@ def replay(ctx, case):
         except ValueError:
             o = "E:Value"
         return dict(impl=o, model=ctx.model(["fix " + hx(s)])[0])
+    if case.get("kind") == "rt":
+        return rt_replay(ctx, case)
     if case.get("kind") == "raw":
         raw, batch = case["raw"].encode("latin-1"), []
         raw_case(ctx, m, raw, case["how"], case["strict"], batch, record=False)
